@@ -367,9 +367,11 @@ def run(c, replay):
         for info in ["default", "inline", "inline-right", "right", "hidden"]:
             for border in [(), ("--border",), ("--style", "full")]:
                 for hdr in [(), ("--header", "HDR"), ("--header-lines", "2")]:
-                    for pv in [(), ("--preview", "echo {}"), ("--preview", "echo {}", "--preview-window", "up"), ("--preview", "echo {}", "--preview-window", "hidden")]:
+                    for pv in [(), ("--preview", "echo {}"), ("--preview", "echo {}", "--preview-window", "up"), ("--preview", "echo {}", "--preview-window", "hidden"),
+                               ("--preview", "echo {}", "--preview-window", "wrap"), ("--preview", "echo {}; echo a日本語", "--preview-window", "right,3,wrap,noborder"),
+                               ("--preview", "echo {}", "--preview-window", "up,2,wrap,border-none")]:
                         axes.append(("--layout", lay, "--info", info) + border + hdr + pv)
-    step = c.pick(7, 1)
+    step = c.pick(11, 1)
     jobs = [(r, cc, a) for i, a in enumerate(axes) if i % step == 0 for (r, cc) in sizes]
     if c.thorough:
         jobs = [j for k, j in enumerate(jobs) if k % 3 == 0 or j[0] <= 3 or j[1] <= 3]
